@@ -337,6 +337,34 @@ impl PlainSecretParams {
             _ => {}
         }
 
+        // Don't lock with S2K settings that `EncryptedSecretParams::unlock` refuses to unlock.
+
+        if let S2kParams::Aead { s2k, .. } = &s2k_params {
+            ensure!(
+                matches!(
+                    s2k,
+                    StringToKey::Argon2 { .. } | StringToKey::IteratedAndSalted { .. }
+                ),
+                "S2K usage AEAD is not allowed with S2K type {:?}",
+                s2k.id()
+            );
+        }
+
+        if version == KeyVersion::V6 {
+            if let S2kParams::Aead { s2k, .. } | S2kParams::Cfb { s2k, .. } = &s2k_params {
+                ensure!(
+                    matches!(
+                        s2k,
+                        StringToKey::Argon2 { .. }
+                            | StringToKey::IteratedAndSalted { .. }
+                            | StringToKey::Salted { .. }
+                    ),
+                    "Version 6 keys may not use the weak S2k type {:?}",
+                    s2k
+                );
+            }
+        }
+
         match &s2k_params {
             S2kParams::Unprotected => bail!("cannot encrypt to unprotected"),
             S2kParams::Cfb { sym_alg, s2k, iv } => {
